@@ -1799,3 +1799,46 @@ def attrkey(repo):
                 m.rel, gate.lineno, f.name)
     res.analysed = [m.rel]
     return res
+
+
+def selfcontain(repo):
+    """R-SELFCONTAIN (C04/C20): a structure that always contains itself (`struct Foo: 0 [+4] Foo inner`; Ping in Pong in
+    Ping) can be sized and compiled, but Ok(), Equals() and CopyFrom() of the generated view call the same methods of the
+    contained view over the same bytes: unbounded recursion, stack overflow in a checked call.  The dependency checker
+    never looks at field *types*, so constraints.check_constraints has to: it reaches a function that walks Field nodes,
+    records an edge enclosing type -> structure type of the field (through get_base_type, i.e. including array
+    elements) for fields whose existence condition is the constant true, searches that graph for a path back to its
+    start and appends an error."""
+    res = RuleResult("R-SELFCONTAIN")
+    m = repo.mod("compiler/front_end/constraints.py")
+    byname = {f.name: f for f in m.top_funcs()}
+    cc = byname.get("check_constraints")
+    if cc is None:
+        raise AnalysisError("constraints.check_constraints not found")
+    called = {call_name(c) for c in walk_no_nested_funcs(cc.node) if isinstance(c, ast.Call) and call_name(c) in byname}
+    res.instances = 3
+    checker = None
+    for name in sorted(called):
+        f = byname[name]
+        src = ast.unparse(f.node)
+        if "errors.append" in src and re.search(r"contain", src) and "fast_traverse_ir_top_down" in src and "ir_data.Field" in src:
+            checker = f
+    if checker is None:
+        res.add(f"{m.rel}|check_constraints|no-containment-check", "check_constraints never looks for a structure that always contains itself: "
+                "`struct Loop: 0 [+1] UInt x / 0 [+4] Loop inner` is accepted and Ok()/Equals()/TryToCopyFrom() of its view overflow the stack",
+                m.rel, cc.line, "check_constraints")
+        res.analysed = [m.rel]
+        return res
+    # the edge collector
+    actions = [byname[a.id] for c in walk_no_nested_funcs(checker.node) if isinstance(c, ast.Call) and (call_name(c) or "").endswith("fast_traverse_ir_top_down")
+               for a in c.args[2:3] if isinstance(a, ast.Name) and a.id in byname]
+    asrc = "\n".join(ast.unparse(a.node) for a in actions)
+    for needle, what in (("get_base_type", "array element types (get_base_type)"), ("existence_condition", "the field's existence condition"),
+                         ("has_field('structure')", "the contained type being a structure")):
+        if needle not in asrc:
+            res.add(f"{m.rel}|{checker.name}|{needle}", f"the containment graph of {checker.name} does not consider {what}", m.rel, checker.line, checker.name)
+    csrc = ast.unparse(checker.node)
+    if not re.search(r"==\s*start|start\s*==|in\s+seen|visited", csrc):
+        res.add(f"{m.rel}|{checker.name}|search", f"{checker.name} no longer searches for a path back to the starting type", m.rel, checker.line, checker.name)
+    res.analysed = [m.rel]
+    return res
